@@ -31,7 +31,8 @@ NEGATIVE_CONTROLS = [
     "nc4_refactor_guards: Defer in Expression::Evaluate replaced by an equivalent try/catch that gives the level back on every path, && and "
     "`in` with renamed locals / reordered guards / early return, `Depth >= limit` for `Depth + 1 > 300`, call locals built by ShallowClone",
     "nc5_same_binary64: number + via temporaries in swapped order, % as a - (a / b) * b, Convert::ToString via snprintf, lexer `* 60 * 60` "
-    "as `* 3600.0` (literal values are an oracle input taken from the real lexer)",
+    "as `* 3600.0` (literal values are checked against the documented exact value with tolerance 2^-50, not bit for bit; inside the "
+    "tolerance the lexer's value is handed to the model)",
 ]
 
 
@@ -50,15 +51,24 @@ class C15(Check):
                   "high-water mark never exceeds 300 for any task, frame and state (invariant by induction on fuel; an evaluation entered at the "
                   "limit yields the recursion error); && and || do not evaluate the right "
                   "operand when the left decides and return operands; function-body locals do not leak, use() captures at definition time; "
-                  "break/continue/return stop at the innermost loop/function; try catches script errors. The model is run (Float = binary64) on "
-                  "every generated AST and must reproduce the real evaluator's canonical result bit for bit; the spec predicate (no crash, "
-                  "deterministic, parenthesisation-independent) is evaluated on the implementation's own observations")
+                  "break/continue/return stop at the innermost loop/function (while AND for; a call answers a plain value whatever code its body ends "
+                  "with; try/except forwards return/break/continue from the body and from the handler); try catches script errors; an array or "
+                  "dictionary literal answers an address that was free before its evaluation (for all elements/frames/states: a NEW container every "
+                  "time); a call's answer does not depend on the caller's locals/this; every text of the literal grammar D+(.D+)?(ms|s|m|h|d)? is "
+                  "split by the lexer model into (digits, fraction length, suffix) and valued by the specification as digits*10^-n*documented factor, "
+                  "and the lexer's operation sequence per suffix is, read exactly, multiplication by that factor; whole trace: every in-protocol "
+                  "answer of the model for every program passes every clause of Spec.checkProgram. The model is run (Float = binary64) on "
+                  "every generated AST and must reproduce the real evaluator's canonical result bit for bit — number and duration literals included: "
+                  "the model computes their values itself (Literal.lean) and agreed bit for bit with the real lexer on every literal of every run; "
+                  "the spec predicate (no crash, deterministic across compilations AND across two evaluations of one compiled expression, "
+                  "parenthesisation-independent, every literal the real lexer evaluated within 2^-50 of its documented exact value, and the family "
+                  "clauses against the reference's answer) is evaluated on the implementation's own observations")
     level_note = ("Trusted: Lean kernel (+ propext, Classical.choice, Quot.sound), gen/c15_precedence.py (anchored regexes; lost anchor => tie broken), "
                   "harness/driver. Not proved, only exercised: memory safety/crash-freedom of the C++ (forked children; crashes found on the unchanged "
-                  "tree: F-C15a/d repaired by 09db53a/13754a5, F-C15b/c known), IEEE arithmetic (Float is opaque to the kernel; no theorem depends on it), parsing beyond the "
+                  "tree: F-C15a/d repaired by 09db53a/13754a5, F-C15f repaired by 1f98393, F-C15b/c known), IEEE arithmetic (Float is opaque to the kernel; no theorem depends on it), parsing beyond the "
                   "precedence table (covered by the two printings). Outside the modelled domain (reported as skipped_unmodelled, not compared): C++ "
                   "undefined conversions (static_cast<int> out of range, shifts >= 32), ToString of containers, natives called with arguments the "
-                  "function wrapper would convert, callbacks that mutate the array being iterated, sort with a comparator, references, namespaces, "
+                  "function wrapper would convert, Array#reduce callbacks that mutate the array being reduced, sort with a comparator, references, namespaces, "
                   "include/object/apply.")
     trusted_base = [
         "gen/c15_precedence.py (anchored regexes over config_parser.yy / config_lexer.ll; the same table feeds the Lean theorem and the harness's printer)",
@@ -67,7 +77,10 @@ class C15(Check):
         "Float (binary64) in the compiled driver computes what the C++ double computes; number formatting re-implemented exactly over the bit pattern",
         "errors are compared as value / script error / recursion error only; the recursion error and the parser's capacity error are recognised by "
         "comparing with the message this very build produces for a calibration program (no wording is hard-coded)",
-        "number literals (incl. durations) are an oracle input: the binary64 the real lexer produces is what the model receives",
+        "number/duration literals: the model computes the value (one correctly rounded division for the decimal, then the lexer's multiplications); "
+        "the real lexer's binary64 is checked against the documented exact value with relative tolerance 2^-50 (the reference fixes no "
+        "intermediate arithmetic) and would replace the model's value only inside that tolerance (STATS lit_tolerated; 0 on the unchanged tree)",
+        "second evaluation of one compiled expression happens in the same child process and thread after removing the user globals",
     ]
     assumptions = [
         "generated programs stay inside the modelled domain except where the driver reports skipped_unmodelled",
@@ -78,6 +91,10 @@ class C15(Check):
         "precedence_matches_reference", "operator_typing", "operator_typing_heap", "deterministic", "total_or_error",
         "no_internal_error", "depth_bounded", "depth_bounded_program", "recursion_error_at_limit", "and_or_short_circuit",
         "scoping_var_does_not_leak", "scoping_use_captures_at_definition", "loop_control", "try_catches_script_errors", "array_join_counterexample",
+        # round 3
+        "array_literal_creates_new_container", "dict_literal_creates_new_container", "try_forwards_flow_control", "loop_control_for",
+        "call_absorbs_flow_control", "scoping_call_ignores_caller_scope", "model_trace_meets_spec", "literal_grammar",
+        "literal_scale_is_documented_factor", "callback_iteration_over_snapshot",
     ]
 
     # ------------------------------------------------------------------ translator
@@ -285,7 +302,13 @@ class C15(Check):
                     "types: never raises; if/else-if chains of 2-5 branches with overlapping conditions with and without else: first true condition in source "
                     "order; errors raised inside dictionary literals (also nested, also in functions) and caught in the same frame, followed by plain "
                     "assignments/reads and uses of this: this restored; ten String methods on empty-string receivers (literal, variable, computed): "
-                    "the method sees \"\" as this), each printed minimally per the generated precedence table and fully parenthesised, evaluated "
+                    "the method sees \"\" as this; return/break/continue executed in try bodies, except handlers, conditionals and nested handlers inside "
+                    "functions, for/while loops over arrays and dictionaries, nested loops and loops inside functions called from loops: the enclosing "
+                    "construct is left; constant array/dictionary literals (also empty, nested) in function bodies called 2-4 times, loop bodies, lambdas "
+                    "and twice at top level, mutated in place by add/remove/set/clear/index/field assignment: a new container per evaluation; map/filter/any/all "
+                    "with use() callbacks that add to / remove from / clear / overwrite the array being iterated, arrays of 0-6 and of 3000/6000 elements: the "
+                    "elements visited are those present when the method was called (1f98393); number and "
+                    "duration literals of every suffix with random digits and fractions, compared and combined), each printed minimally per the generated precedence table and fully parenthesised, evaluated "
                     "3x in forked children; plus hostile texts (token/byte mutations of generated programs, arbitrary byte strings). evaluations = "
                     "3 x programs + hostile texts; non-trivial = programs with more than 6 AST tokens whose model outcome was compared (value or script error)")
         raw = open(save, errors="replace").read().splitlines()
@@ -327,7 +350,7 @@ class C15(Check):
 
                 shown = case
                 # (the join clause only looks at the family tag and the outcome: every shrunk variant that raises would satisfy it)
-                if case.startswith("P ") and clause != "array_join_total_on_scalars" and still(case):
+                if case.startswith("P ") and clause != "array_join_total_on_scalars" and not case.startswith("P mapmut-") and still(case):   # (the regression lines of F-C15f are minimal already)
                     shown = self._shrink_p(harness, driver, case, still)
                     _, sl = self._replay_lines(harness, driver, [shown])
                     shown = sl[0] if sl else shown
